@@ -3,6 +3,7 @@ from .common import jobs_for
 LEVEL = 'proof'
 LEVEL_TEXT = 'the request kind is enumerated exhaustively (9 grid classes x 6 coordinate labels x 3 holders get/set, 6 component labels get/set, constructor arities 0..7 with numbers / arrays, all 3^d periodic-flag patterns through boundaryConditionsTerm / the CellVariable constructor / apply_BCs, 11 initial-value shape families, BoundaryFace argument kinds, solvePDE term kinds) while sizes and contents stay symbolic: each traced call ends in the documented exception type, resp. returns normally for every N >= 1 (shape validity is decided per size region, e.g. shape 2N equals N+2 for N = 2)'
 LEVEL_NOTE = 'exception types are those of the real classes raised by the traced real code; arguments of a documented arity but the wrong kind (numbers where face arrays are expected) are outside the property; the model raises numpy\'s exception types for shape errors (ValueError / IndexError), validated by the conformance runs'
+NOT_MACHINE_CHECKED = ['the request kinds (labels, arities, shapes families, term kinds, periodic patterns) are enumerated exhaustively per grid class while N stays symbolic; request kinds outside these families are not covered']
 MODULES = ['contracts.loud', 'contracts.solver']
 TRUSTED = ['A1', 'A2', 'A5', 'A6']
 
